@@ -140,6 +140,25 @@ def r13_3(run):
         bad = len(d) > 1 and isinstance(d[1], ast.AST) and any(dotted(x) == 'DEFAULT_VALUE' for x in ast.walk(d[1])) and d[0] == 'expr'
         run.ob('R13.3', pk, d[1] if len(d) > 1 and isinstance(d[1], ast.AST) else pk.node, 'a parsed value is never replaced by the unset sentinel', not bad,
                slot='value-never-sentinel', message='parse_keywords turns a value into DEFAULT_VALUE: "set to the empty string" becomes indistinguishable from "unset"')
+    # the value is exactly the text Tor sent: its only definitions are '', the split remainder and the
+    # continuation; what is stored is the value itself or unquote(value) - no trimming, no case change
+    kdef = 0
+    for n in walk_unit(pk):
+        if isinstance(n, (ast.Assign, ast.AugAssign)) and V in assigned_targets(n):
+            kdef += 1
+            v = n.value
+            ok = const(v) == '' or (isinstance(n, ast.Assign) and isinstance(n.targets[0], (ast.Tuple, ast.List)) and isinstance(v, ast.Call) and callee_attr(v) in ('split', 'partition')) \
+                or (isinstance(v, ast.BinOp) and norm_src(v, {V: 'VALUE', L: 'LINE'}).replace(' ', '') == "VALUE+'\\n'+LINE") \
+                or (isinstance(v, ast.Subscript) and isinstance(v.value, ast.Name) and v.value.id == ro['SP'] and const(v.slice) == 1)
+            run.ob('R13.3', pk, n, 'the value is only ever the text after "=" plus whole continuation lines', ok, slot='value-defs',
+                   message='parse_keywords redefines the value as %s: the reply\'s text is altered (e.g. trailing blanks of the last value trimmed)' % src(v)[:60])
+    run.floor('R13.3', 'definitions of the value', kdef, 3)
+    for s_ in vals:
+        for x in ast.walk(s_.value):
+            if isinstance(x, ast.Call) and any(isinstance(y, ast.Name) and y.id == V for y in ast.walk(x)):
+                okc = dotted(x.func) == 'unquote' and len(x.args) == 1 and dotted(x.args[0]) == V
+                run.ob('R13.3', pk, x, 'a stored value passes only through unquote()', okc, slot='value-transform',
+                       message='parse_keywords stores %s' % src(x)[:60])
     # repeated keys accumulate in arrival order: [old, new] then append
     lists = [s for s in stores if isinstance(s.value, ast.List) and len(s.value.elts) == 2]
     ok = bool(lists) and all(isinstance(s.value.elts[0], ast.Subscript) and dotted(s.value.elts[0].value) == R and any(isinstance(x, ast.Name) and x.id == V for x in ast.walk(s.value.elts[1])) for s in lists)
@@ -298,6 +317,8 @@ RULES = [
 from ..selftest import M  # noqa: E402
 F = 'txtorcon/torcontrolprotocol.py'
 MUTANTS = [
+    M('final-value-rstripped', F, "    if key:\n        if key in rtn:", "    if key:\n        value = value.rstrip()\n        if key in rtn:", ['R13.3']),
+    M('stored-value-stripped', F, "        else:\n            rtn[key] = unquote(value)\n    return rtn", "        else:\n            rtn[key] = unquote(value.strip())\n    return rtn", ['R13.3']),
     M('rstrip-ok', F, "                resp = resp[:-3]", "                resp = resp.rstrip('\\nOK')", ['R13.6']),
     M('cut-two', F, "                resp = resp[:-3]", "                resp = resp[:-2]", ['R13.6']),
     M('no-unstuffing', F, "        if line.startswith('.'):\n            line = line[1:]\n", "", ['R13.1']),
